@@ -44,7 +44,7 @@ func (c *Ctx) eofTermination(rule string, pkgs ...string) {
 		TTypeField:   func(f *types.Var) bool { return f == ttype },
 		IsScanToken:  func(fn *ssa.Function) bool { return fn == scan },
 		IsHavoc: func(fn *ssa.Function) bool {
-			return fn.Name() == "RestoreState"
+			return engine.ShortName(fn) == "RestoreState"
 		},
 		Own: func(fn *ssa.Function) bool {
 			return own[engine.RelPkg(P.OwnPkgPath(fn))]
